@@ -163,18 +163,57 @@ func (r *Run) Note(format string, a ...any) {
 
 // SafeExec runs the implementation on one input, turning a panic into the
 // outcome "panic".
-func SafeExec(p *Property, in Sexp) (out string) {
-	defer func() {
-		if e := recover(); e != nil {
-			out = "panic"
-			if os.Getenv("VERIF_DEBUG_PANIC") != "" {
-				fmt.Fprintf(os.Stderr, "panic on %s: %v\n", in.String(), e)
+func SafeExec(p *Property, in Sexp) string {
+	run := func() (out string) {
+		defer func() {
+			if e := recover(); e != nil {
+				out = "panic"
+				if os.Getenv("VERIF_DEBUG_PANIC") != "" {
+					fmt.Fprintf(os.Stderr, "panic on %s: %v\n", in.String(), e)
+				}
 			}
+		}()
+		out = p.Exec(in)
+		out = strings.ReplaceAll(out, "\n", " ")
+		return
+	}
+	// A case that does not come back (a loop that never ends in the code under
+	// test) is the outcome "hang"; the run goes on. The abandoned goroutine keeps
+	// running, so after the first hang the remaining results are only indicative.
+	limit := 180 * time.Second
+	if s := os.Getenv("VERIF_EXEC_TIMEOUT"); s != "" {
+		if d, err := time.ParseDuration(s); err == nil {
+			limit = d
 		}
+	}
+	ch := make(chan string, 1)
+	go func() { ch <- run() }()
+	select {
+	case out := <-ch:
+		return out
+	case <-time.After(limit):
+		return "hang"
+	}
+}
+
+// safeExtra runs Property.Extra with a time limit of its own.
+func safeExtra(p *Property, r *Run) {
+	done := make(chan struct{})
+	go func() {
+		defer close(done)
+		defer func() {
+			if e := recover(); e != nil {
+				r.AddViolation(Finding{Kind: "failing-input", Class: "whole-run-check-panicked", Input: "(extra)", Impl: fmt.Sprint(e)})
+			}
+		}()
+		p.Extra(r)
 	}()
-	out = p.Exec(in)
-	out = strings.ReplaceAll(out, "\n", " ")
-	return
+	select {
+	case <-done:
+	case <-time.After(20 * time.Minute):
+		r.AddViolation(Finding{Kind: "failing-input", Class: "whole-run-check-hangs", Input: "(extra)", Impl: "hang",
+			Detail: "the property's whole-run check did not finish within 20 minutes"})
+	}
 }
 
 // DriverBatch pipes lines to the Lean driver and returns one answer per line.
@@ -370,7 +409,7 @@ func RunProperty(p *Property, tier string, seed int64, driver, corpusDir, outFil
 		r.evaluate(g2.cases)
 	}
 	if p.Extra != nil {
-		p.Extra(r)
+		safeExtra(p, r)
 	}
 	// known findings of the unchanged tree are reported as they are; anything
 	// else is shrunk for the replay file (the check script decides which is which,
